@@ -33,8 +33,9 @@ ANY = 0xFFFFFFFF
 E_SOCKET = 6
 WRAPS = ["m_msg_create", "m_msg_destroy", "m_msg_send", "m_msg_recv", "m_msg_bind", "connect", "close", "nanosleep"]
 LARGE = 320000          # payload bytes: request larger than any UNIX-socket send buffer (wmem_default 208 KB + one skb)
-TO_DAEMON = {"W": "Q", "Q": "Q", "L": "L", "S": "S"}      # what the daemon sees
-PHASES_OF = {"W": "sr", "Q": "r", "L": "r", "S": "r", "C": "c"}
+HUGE = 560000           # payload bytes of the replies that are cut in the middle: reply - k stays above the send buffer for k <= 208 KB
+TO_DAEMON = {"W": "Q", "Q": "Q", "L": "L", "S": "S", "H": "S"}      # what the daemon sees (H: its send fails part-way)
+PHASES_OF = {"W": "sr", "Q": "r", "L": "r", "S": "r", "H": "r", "C": "c"}
 CLAUSE_RETRY = ("If the connection between libmunge and munged breaks at any byte of the request or of the reply, up to four "
                 "times in succession, munge_encode and munge_decode still complete with the correct result by retrying")
 CLAUSE_EXH = "a client that exhausts its retries gets a socket error, never a wrong or partial result"
@@ -228,7 +229,7 @@ def xconsts():
 def _run_own(ctx):
     ctx.level = "proof"
     have = os.path.exists(os.path.join(vlib.COQ, "Properties_C13.v"))
-    proved = vlib.prove(ctx, ["Properties_C13.v"], facts=["cred", "base64", "replay", "retryloop"]) if have else False
+    proved = vlib.prove(ctx, ["Properties_C13.v"], facts=["cred", "base64", "replay", "retryloop", "retrymsgio", "fd"]) if have else False
     ctx.log("proofs:", "ok" if proved else "BROKEN/absent: " + getattr(ctx, "broken_obligation", "Properties_C13.v"))
     ctx.cov["rule"] = ("fault plans = sequences of up to 5 per-attempt faults at the proxy (W k: request cut after k bytes while the "
                        "client writes, k=0 with the client held until the peer has hung up; Q k: request cut on the way; L k: reply "
@@ -330,7 +331,7 @@ def _run_own(ctx):
         return [j + 1 for j, f in enumerate(plan) if f[0] == "W" and f[1] == 0]
 
     def plan_str(plan):
-        return ",".join("%s%d" % (f[0], f[1]) if f[0] in "WQL" else f[0] for f in plan) or "-"
+        return ",".join("%s%d" % (f[0], f[1]) if f[0] in "WQLH" else f[0] for f in plan) or "-"
 
     def check_trace(case, plan, trace, err):
         """direct: isolation of attempts on the implementation's events; correspondence: the events are the model's"""
@@ -494,6 +495,8 @@ def _run_own(ctx):
                 plan.append(("Q", rng.choice([0, 5, 11, 12, 30, n // 2, n - 1])))
             elif x == "L":
                 plan.append(("L", rng.choice([0, 5, 10, 11, 12, 30, 60])))
+            elif x == "H":
+                plan.append(("H", rng.choice([1, 11, 4096, 30000])))   # reply - k stays above the send buffer (large only)
             else:
                 plan.append((x, 0))
         return plan
@@ -581,6 +584,11 @@ def _run_own(ctx):
                 decode_case("large-order", inst(s, "decode", "large"), "large", model=False)
             if j < 3 or j % 2 == 1:
                 encode_case("large-order", inst(s, "encode", "large"), "large")
+        # the daemon's reply cut in the MIDDLE (it has written part of it and waits for buffer space when the peer hangs up)
+        for s in [("H",), ("H", "H"), ("L", "H"), ("H", "w"), ("S", "H", "L")] + ([("H",) * (ATT - 1), ("H", "Q", "H", "W")] if ctx.thorough else []):
+            decode_case("large-midreply", inst(s, "decode", "large"), "large", model=False)
+        for s in [("H",)] + ([("W", "H"), ("H", "L", "H")] if ctx.thorough else []):
+            encode_case("large-midreply", inst(s, "encode", "large"), "large")
         for s in [("L", "W", "L", "w", "W"), ("W",) * ATT]:
             decode_case("large-exhausted", inst(s, "decode", "large"), "large", model=False)
             encode_case("large-exhausted", inst(s, "encode", "large"), "large")
@@ -610,6 +618,43 @@ def _run_own(ctx):
             if d is None or d["error_num"] != 0:
                 fails.append({"why": "attempts %s: the reply to a successful decode could not be delivered and the client never came back, yet "
                                      "the credential is now reported as %s" % (seq, d and (d["error_num"], d["error_str"]),), "op": "unsent", "seq": seq})
+        # the reply to a successful decode breaks in the MIDDLE: munged has written part of it, waits for buffer space, the
+        # peer hangs up after k bytes; the client never comes back.  Replies larger than the socket send buffer.
+        huge = gen_payload(HUGE)
+        mid = [(["H"], 1), (["H"], 11), (["H"], 4096), (["H"], 212992)]
+        if ctx.thorough:
+            mid += [(["Q", "H"], 3000), (["L", "H"], 70000), (["W", "H"], 1), (["H"], 100), (["H"], 150000)]
+        else:
+            mid += [([["Q", "H"], ["L", "H"]][ctx.seed % 2], rng.choice([100, 3000, 70000]))]
+        for seq, k in mid:
+            r, _ = rig.encode(cr.d.sock, uid=0, gid=0, data=huge)
+            cred = r["data"]
+            plan = [(x, k if x == "H" else 9) for x in seq]
+            px.set_plan(plan)
+            for i, x in enumerate(seq):
+                rig.decode(px.listen_path, cred, retry=i)        # the client gets at most k bytes of the reply
+            log = [list(x) for x in px.log]
+            ctx.count(("unsent-mid", tuple(seq), k))
+            dist["unsent-midreply-no-retry"] = dist.get("unsent-midreply-no-retry", 0) + 1
+            d1, _ = rig.decode(cr.d.sock, cred)
+            case = {"op": "unsent-mid", "attempts": seq, "reply_cut_after_bytes": k, "payload_len": HUGE, "proxy_log": log,
+                    "plan": [list(f) for f in plan],
+                    "how_to_replay": "encode %d bytes ((i*131+7)&255); send the DEC_REQ(s) (retry = 0, 1, ..) from a raw client; for the "
+                                     "last one read %d bytes of the reply, wait 30 ms, close; wait until munged has closed its end; "
+                                     "decode the credential again" % (HUGE, k)}
+            if d1 is None or d1["error_num"] != 0 or d1["data"] != huge:
+                fails.append(dict(case, key="unsent-mid", why="attempts %s: munged had written only part of the reply to a successful decode "
+                                  "(%d-byte payload) when the client hung up after %d bytes, and the client never came back; the credential "
+                                  "must remain decodable, but the next decode gives %s" % (
+                                      seq, HUGE, k, d1 and (d1["error_num"], d1["error_str"])),
+                                  clause="If munged cannot deliver the reply to a successful decode and the client never retries, the "
+                                         "credential remains decodable"))
+            else:
+                d2, _ = rig.decode(cr.d.sock, cred)
+                if d2 is None or d2["error_num"] != 17:
+                    fails.append(dict(case, key="unsent-mid-second", why="attempts %s, reply cut after %d bytes: the credential decoded afterwards is "
+                                      "accepted once more (%s)" % (seq, k, d2 and d2["error_num"])))
+        ctx.log("replies cut in the middle (%d-byte payload, no retry): %d cases" % (HUGE, len(mid)))
         # the same with other live credentials in the SAME bucket chain of the replay table (head / middle / tail)
         c13_replay.rollback_live(ctx, cr, fails, mism, dist)
 
